@@ -288,7 +288,8 @@ class G:
     def s_for(self, ind, scope):
         r = self.rng
         var = r.choice(["i", "j", "k", "item"])
-        src = r.choice(["range(%d)" % r.randint(0, 4), "range(1, %d)" % r.randint(1, 5), self.list_expr(scope, 1),
+        src = r.choice(["range(%d)" % r.randint(0, 4), "range(1, %d)" % r.randint(1, 5),
+                        "list(%s)" % self.list_expr(scope, 1),      # a copy: the body may mutate the list
                         "enumerate(%s)" % self.str_expr(scope, 2)])
         if src.startswith("enumerate"):
             self.emit("for %s, ch in %s:" % (var, src), ind)
@@ -305,12 +306,14 @@ class G:
 
     def s_while(self, ind, scope):
         r = self.rng
-        c = r.choice(["w", "steps", "left"])
+        c = r.choice(["w", "steps", "left"]) + str(ind)
         self.emit("%s = %d" % (c, r.randint(0, 4)), ind)
-        scope[c] = "int"
+        scope.pop(c, None)              # the counter is not offered to the body (termination)
         self.emit("while %s > 0:" % c, ind)
         self.block(ind + 1, scope, n=r.randint(1, 2))
+        scope.pop(c, None)
         self.emit("    %s -= 1" % c, ind)
+        scope[c] = "int"
 
     def s_input(self, ind, scope):
         r = self.rng
